@@ -103,9 +103,13 @@ fn mac(m: &Macro) -> Value {
     let name = path_str(&m.path);
     let mut v = json!({"k":"Macro","name":name,"l":ln(m)});
     // expression-list macros: parse the arguments as comma separated expressions when possible
-    if let Ok(args) = m.parse_body_with(Punctuated::<Expr, Token![,]>::parse_terminated) {
-        v["args"] = Value::Array(args.iter().map(expr).collect());
-    } else if name == "matches" || name.ends_with("::matches") {
+    let is_matches = name == "matches" || name.ends_with("::matches");
+    if !is_matches {
+        if let Ok(args) = m.parse_body_with(Punctuated::<Expr, Token![,]>::parse_terminated) {
+            v["args"] = Value::Array(args.iter().map(expr).collect());
+        }
+    }
+    if is_matches {
         // matches!(expr, pat (if guard)?)
         if let Ok((e, p, g)) = m.parse_body_with(|input: parse::ParseStream| {
             let e: Expr = input.parse()?;
